@@ -305,6 +305,9 @@ def hoist(lines, fname):
             j = i
             block = []
             while j < n and lines[j][0][0] == 'ann':
+                if lines[j][1].strip() == '---':   # separator: what follows stays inside the body
+                    j += 1
+                    break
                 block.append(lines[j])
                 j += 1
             # find the header end in `out`
@@ -334,6 +337,9 @@ def hoist(lines, fname):
                 out.append((o, t))
             out.append((('gen', 0), term))
             i = j
+            continue
+        if org[0] == 'ann' and text.strip() == '---':
+            i += 1
             continue
         out.append((org, text))
         i += 1
